@@ -1,0 +1,15 @@
+//go:build verif
+
+package logdb
+
+// Verification hooks (build tag verif): thin accessors to the unexported sequence packing. No logic.
+
+func VerifNewSequence(blockNum, txIndex, logIndex uint32) (int64, bool) {
+	s, err := newSequence(blockNum, txIndex, logIndex)
+	return int64(s), err == nil
+}
+
+func VerifSequenceFields(s int64) (blockNum, txIndex, logIndex uint32) {
+	q := sequence(s)
+	return q.BlockNumber(), q.TxIndex(), q.LogIndex()
+}
